@@ -60,22 +60,26 @@ def register(S):
     S.contract(F + "cmd_register", params={"self": "obj:RegistryServer", "host": "val", "names": "val", "port": "val"}, result="val",
                abstract_calls=LOGJOIN, merge_iteration=True, dynamic_errors=True,
                requires=["plain(host)", "plain(names)", "plain(port)", "sized(host)", "sized(names)", "sized(port)", "times_ok(self.services)"],
-               ensures=dict(CMD_ENS, answers_ok=("result == 'OK'", P18)), raises=CMD_RAISES, modifies=["self.services"],
+               ensures=dict(CMD_ENS, answers_ok=("result == 'OK'", P18),
+                            only_this_server_is_touched=("other_servers_untouched(self.services, pair(host, port))", P18)),
+               raises=CMD_RAISES, modifies=["self.services"],
                loops={0: {"rest": "todo", "modifies": ["self.services"], "props": P18,
-                          "invariant": ["times_ok(self.services)", "plain_list(todo)"],
+                          "invariant": ["times_ok(self.services)", "plain_list(todo)", "other_servers_untouched(self.services, pair(host, port))"],
                           # each name registers exactly (host, port) under its upper-case form - nothing else
-                          "body_events": ["n_events() == n_callees('_add_service') and n_callees('_add_service') <= 1",
+                          "body_events": ["n_events() == n_callees('_add_service') and n_callees('_add_service') == 1",
                                           "implies(n_callees('_add_service') == 1, "
                                           "same(callee_arg('_add_service', 0, 'addrinfo'), pair(host, port)) and "
                                           "same(callee_arg('_add_service', 0, 'name'), upper_of(name)))"]}})
     S.contract(F + "cmd_unregister", params={"self": "obj:RegistryServer", "host": "val", "port": "val"}, result="val",
                abstract_calls=HOOKS, merge_iteration=True, dynamic_errors=True,
                requires=["plain(host)", "plain(port)", "times_ok(self.services)"],
-               ensures=dict(CMD_ENS, answers_ok=("result == 'OK'", P18)), raises=CMD_RAISES, modifies=["self.services"],
+               ensures=dict(CMD_ENS, answers_ok=("result == 'OK'", P18),
+                            only_this_server_is_removed=("other_servers_untouched(self.services, pair(host, port))", P18)),
+               raises=CMD_RAISES, modifies=["self.services"],
                loops={0: {"rest": "todo", "modifies": ["self.services"], "props": P18,
-                          "invariant": ["times_ok(self.services)"],
+                          "invariant": ["times_ok(self.services)", "other_servers_untouched(self.services, pair(host, port))"],
                           # under each name exactly (host, port) is removed - never another server's registration
-                          "body_events": ["n_events() == n_callees('_remove_service') and n_callees('_remove_service') <= 1",
+                          "body_events": ["n_events() == n_callees('_remove_service') and n_callees('_remove_service') == 1",
                                           "implies(n_callees('_remove_service') == 1, "
                                           "same(callee_arg('_remove_service', 0, 'addrinfo'), pair(host, port)) and "
                                           "same(callee_arg('_remove_service', 0, 'name'), name))"]}})
